@@ -223,8 +223,8 @@ CONTRACT_ALPHA = (
 )
 RAW_ALPHA = CONTRACT_ALPHA + ["adopt"] * 3 + ["adoptSame", "unadoptSame", "take", "take", "store", "unadopt"]
 API_ALPHA = ["tryUnwrap"] * 3 + ["makeMut"] * 3 + ["getMut", "intoRaw", "intoRaw", "fromRaw", "fromRaw", "incStrong",
-             "decStrong", "decStrong", "dropValue", "clone", "drop", "drop", "downgrade", "dropWeak", "link", "unlink",
-             "counts", "upgrade"]
+             "decStrong", "decStrong", "dropValue", "clone", "drop", "drop", "downgrade", "downgrade", "cloneWeak",
+             "dropWeak", "link", "unlink", "counts", "wcounts", "upgrade"]
 NOADOPT_ALPHA = ["new", "clone", "clone", "drop", "drop", "drop", "store", "store", "take", "downgrade", "downgrade",
                  "upgrade", "upgrade", "cloneWeak", "dropWeak", "dropWeak", "storeWeak", "tryUnwrap", "dropValue",
                  "makeMut", "getMut", "intoRaw", "fromRaw", "incStrong", "decStrong", "ptrEq", "counts", "wcounts"]
